@@ -144,6 +144,7 @@ let handle (x : sexp) : (string * string) list =
               | L [A "triginc"; A n] -> impl_log := OTrigInc (ni (int_of_string n)) :: !impl_log
               | L [A "trigdec"; A n] -> impl_log := OTrigDec (ni (int_of_string n)) :: !impl_log
               | L (A "panic" :: _) as p -> add_spec ("C12:completed_once panic in actor: " ^ print_sexp p)
+              | L [A "overlap"; A s] -> add_spec ("C12:writes_exclusive two writer calls of subscriber " ^ s ^ " overlap")
               | _ -> ()) obs;
           if parse_status status = Panic then add_spec "C12:completed_once actor panicked"
         | _ -> ()) steps;
@@ -310,6 +311,17 @@ let handle (x : sexp) : (string * string) list =
           List.iter (function L [A "subinc"; _] -> () | _ -> ()) obs
         | _ -> ()) steps;
     ignore added;
+    (* teardown by a foreign source: cancels observed while an updater call of another instance ran *)
+    let owner_of = Hashtbl.create 16 in
+    let tsteps = List.filter_map (function
+        | L [what; _; L (A "obs" :: obs); _] ->
+          let name = (match what with L [A "start"; A n; L (A k :: A a :: _)] ->
+              (match k with "update" | "complete" | "error" | "done" | "close" -> Hashtbl.replace owner_of n (int_of_string a) | _ -> ()); n
+                              | L [A "start"; A n; _] | L [A "go"; A n] -> n | _ -> "") in
+          let cs = List.filter_map (function L [A "cancel"; A s] -> Some (ni (int_of_string s)) | _ -> None) obs in
+          Some ((match Hashtbl.find_opt owner_of name with Some a -> Some (ni a) | None -> None), cs)
+        | _ -> None) steps in
+    if not (teardown_own_b tsteps) then add_spec "C13:teardown_has_cause a trigger context was cancelled by a call of another trigger's updater";
     let all_done = Hashtbl.fold (fun n stt acc -> acc && (n = "hb" || stt = Fin)) last_status true in
     let subinc = List.fold_left (fun a -> function OSubInc n -> a + ii n | _ -> a) 0 l in
     let all_gone = List.for_all (fun c -> List.mem c.sid !gone || c.sync) cfgs || subinc = 0 in
